@@ -93,4 +93,10 @@ def bounds (ps : List Pair) (name : Bytes) : Option QueryIter.It :=
 def getAll (ps : List Pair) (name : Bytes) : Option (List Pair) :=
   (bounds ps name).map (QueryIter.slice ps)
 
+/-- `get_first`, `get_last`, `get` (the value only if the name occurs exactly once): `none` = a panic -/
+def getFirst (ps : List Pair) (name : Bytes) : Option (Option Pair) := (getAll ps name).map List.head?
+def getLast (ps : List Pair) (name : Bytes) : Option (Option Pair) := (getAll ps name).map List.getLast?
+def get (ps : List Pair) (name : Bytes) : Option (Option Pair) :=
+  (getAll ps name).map fun l => if l.length = 1 then l.head? else none
+
 end QuerySplit
